@@ -111,28 +111,34 @@ def importFromBinary (env : Env) (val : Dyn) (typ : Ty) : Outcome Dyn :=
 
 /-- `value.Import(val)` on a cell `(raw, f, typ)`: the cell afterwards and the error.
     On error the raw value has already been overwritten with nil. -/
+def importByFormat (env : Env) (f : Format) (typ : Ty) (val : Dyn) : Outcome (Val × Option ErrClass) :=
+  let res : Outcome Dyn :=
+    match f with
+    | .string => importFrom env "ToString" val typ
+    | .numeric => importFrom env "ToNumber" val typ
+    | .boolean => importFrom env "ToBool" val typ
+    | .binary => importFromBinary env val typ
+    | .date => importFrom env "ToDate" val typ
+    | .datetime => importFrom env "ToTime" val typ
+    | .timestamp => importFrom env "ToInt64" val typ
+    | .auto | .hidden => Cast.castTo env.T env.ext typ val
+    | .bad => .err .unsupportedFormat
+  match res with
+  | .ok r => .ok (.cell r f typ, none)
+  | .err .ext => .err .ext
+  | .err e => .ok (.cell .nil f typ, some e)
+  | .panic s => .panic s
+
 def importCell (env : Env) (f : Format) (typ : Ty) (val : Dyn) : Outcome (Val × Option ErrClass) :=
   match val with
   | .nil => .ok (.cell .nil f typ, none)
-  | .val (.row ms) => .ok (.cell (.val (.row ms)) .auto .none, none)     -- an incoming Row is kept as it is
+  | .val (.row ms) =>
+    -- a nested object never changes the column's format: Auto and Hidden keep it as it is, the
+    -- other formats convert (hence reject) it like any other value
+    if f == .auto || f == .hidden then .ok (.cell (.val (.row ms)) f typ, none)
+    else importByFormat env f typ val
   | .val v => .ok (.cell (Cells.raw v) (Cells.format v) (Cells.rawType v), none)
-  | _ =>
-    let res : Outcome Dyn :=
-      match f with
-      | .string => importFrom env "ToString" val typ
-      | .numeric => importFrom env "ToNumber" val typ
-      | .boolean => importFrom env "ToBool" val typ
-      | .binary => importFromBinary env val typ
-      | .date => importFrom env "ToDate" val typ
-      | .datetime => importFrom env "ToTime" val typ
-      | .timestamp => importFrom env "ToInt64" val typ
-      | .auto | .hidden => Cast.castTo env.T env.ext typ val
-      | .bad => .err .unsupportedFormat
-    match res with
-    | .ok r => .ok (.cell r f typ, none)
-    | .err .ext => .err .ext
-    | .err e => .ok (.cell .nil f typ, some e)
-    | .panic s => .panic s
+  | _ => importByFormat env f typ val
 
 /-- Outcome-aware cell operations, by fuel for rows importing into their own cells. -/
 structure Ops where
